@@ -98,7 +98,8 @@ def main(tier, replay):
         "ProjData the object holds), BinNormalisationFromAttenuationImage with a matrix projector and with its default projector (square and "
         "non-square voxels; other number of tangential positions, fewer segments, first geometry again), and a nested "
         "ChainedBinNormalisation(Chained(components, attenuation), calibrated table) of which ONLY the outer chain is set up again after the "
-        "members' factors were changed in place / for another geometry.  "
+        "members' factors were changed in place / for another geometry (the chain-product, partial-application and is_first/second_trivial "
+        "oracles then compare the re-used chain with fresh members configured identically, each set up and measured on its own).  "
         "NON-SQUARE IN-PLANE VOXELS: in every non-TOF span-1 geometry three more attenuation objects with voxel sizes (x,y) = (a,b) and (b,a), "
         "a/b = 1.5 or 1.1, z different from both, given projector and default projector (rows for the model from the separate matrix object, "
         "vx = the X voxel size); and (`acf` lines, section J) on scanners with 32-64 detectors per ring, 2-3 rings, 9-16 tangential "
